@@ -170,6 +170,7 @@ def run(tier):
         lambda: drive_and_validate(c, "inmem", grounds, ghunt, mode="gated"),
         lambda: drive_and_validate(c, "redis", 4 if q else 25, 0)], max_workers=3)
 
+    redis_promptness(c)
     if c.drift:
         vcheck.log("MODEL-DRIFT: %d script runs saw a blocked call woken without a change (InmemWaitImpl says it registers once); "
                    "not a violation of the contract" % c.drift)
@@ -305,3 +306,24 @@ def selftest(c, emitted, lines):
     if missed:
         raise vcheck.Broken("selftest: TLC did not find the seeded defects %s in InmemWaitImpl" % missed)
     c.selftest = st
+
+
+def redis_promptness(c):
+    """'It does return promptly', Redis (polling) backend: a waiter idle for 2.2 s must notice a Put / Delete within the poll cap
+    (100 ms) - judged with a one-sided bound of 1 s; scenarios during which the host stalled are repeated by the driver."""
+    import json
+    trace = c.path("trace", "kvwait-prompt.ndjson")
+    c.run_vh(["drive", "kvwait-prompt", "-seed", c.seed, "-out", trace], timeout=300)
+    cfg = c.write_cfg("kv", "PromptTrace", constants={"Bound": 1000}, postcondition="Accepted")
+    ok, at, _ = c.validate_trace("kv", "PromptTrace", cfg, trace, label="PromptTrace")
+    lines = open(trace).read().splitlines()
+    c.extra["redis_promptness"] = [json.loads(x) for x in lines]
+    if ok:
+        c.traces_validated += len(lines)
+        return
+    ev = json.loads(lines[at - 1])
+    if ev.get("late_ms", 0) > 1000:
+        sig = "kvwait: Redis waiter idle for %d ms noticed the change only after more than 1 s (documented poll cap 100 ms)" % ev.get("idle_ms", 0)
+    else:
+        sig = "kvwait: Redis waiter returned %s after a %s" % (ev.get("res"), ev.get("change"))
+    c.report_failure(sig, {"rejected_at_line": at, "history": lines[:at], "trace": {"comp": "kv", "module": "PromptTrace", "constants": {"Bound": 1000}}})
